@@ -20,10 +20,10 @@ import (
 
 type field struct {
 	name  string
-	text  string               // value text for the driver ("" = omit the key: absent optional section)
-	apply func(p pack.Pack)    // sets the field on a freshly constructed pack
+	text  string                   // value text for the driver ("" = omit the key: absent optional section)
+	apply func(p pack.Pack)        // sets the field on a freshly constructed pack
 	late  func(p pack.Pack) string // optional: text computed from the built pack (inputs only the pack can tell)
-	zero  *field               // simpler variant for shrinking (nil: already simplest)
+	zero  *field                   // simpler variant for shrinking (nil: already simplest)
 }
 
 type tcase struct {
@@ -171,7 +171,7 @@ func genLicense(r *vh.Rng) string {
 	}
 }
 
-func itoa(v int64) string { return strconv.FormatInt(v, 10) }
+func itoa(v int64) string  { return strconv.FormatInt(v, 10) }
 func utoa(v uint64) string { return strconv.FormatUint(v, 10) }
 func hx(s string) string   { return vh.Hex([]byte(s)) }
 
